@@ -15,7 +15,7 @@
 
     1. parsers            : `parse_footer`, `hdr_decode`, `block_decode`, `de_entries`, `parse_sizes`
     2. file reader        : `btf_new`, `btf_read` (any `Btf`), `btfS_read` (over any stack), `get_hash`,
-                            `read_to_end` / `budget_le` (termination of `read_to_end` on any input)
+                            `read_to_end` / `budget_le` / `get_file` (`read_to_end` terminates on any input)
     3. linear / repair    : `linear_run`, `repair_convert` (fuel and the `repair-sync` branch)
     4. encryption reader  : `enc_read`, `enc_seek`, `enc_init`, `readUpTo_fuel`
     5. compression reader : `comp_read` (fuel 3 is adequate), `comp_seek`, `comp_init`
@@ -23,14 +23,15 @@
     7. sequences          : `after_error_enc`, `after_error_comp`, `after_error_archive`
     8. allocation         : `alloc`
 
-  FINDING (fuel NOT adequate, and an amplification): `Btf.readAll`, the model's `read_to_end` driver
-  used by `Reader.getFile`, runs with fuel `|s| + 2`.  On a hostile index whose offsets list points
-  back to the same content block again and again this fuel is exceeded (`readAll_fuel_inadequate`
-  below): the number of reads is bounded by `(offsets.length + 1) × (|s| + 1)`, not by `|s|`
-  (`read_to_end`, `budget_le`: with that much fuel `Btf.readAll` never panics, on any input — the
-  loop always terminates, `curOff` only grows).  But a file can be made to deliver `offsets.length`
-  times its content (`amplification` below): the output of `get_file` + `read_to_end` is not bounded
-  by the archive size, only by `(|footer| / 8) × |s|`.
+  `read_to_end` (`Btf.readAll`, driven by `Reader.getFile`): every non-empty read moves forward in the
+  stream or uses up one offset, so at most `(offsets.length + 1) × (|s| + 1)` reads are needed
+  (`read_to_end`, `budget_le`); `Reader.getFile` runs with that fuel (a fuel of `|s| + 2`, as the
+  model had before, is exceeded by a hostile offsets list that points back to the same content block
+  again and again) and never panics (`get_file`).
+  OBSERVATION about the format (`amplification`): such an offsets list makes a successful
+  `get_file` + `read_to_end` deliver the content `offsets.length` times: the output is bounded by
+  `(|footer| / 8) × |s|`, not by the archive size.  Not a property violation (the library hands out
+  what the caller asks to read); recorded in the design notes.
 -/
 import MlaModel.Proofs.NoPanic
 import MlaModel.Proofs.NoPanicLayers
@@ -95,6 +96,12 @@ theorem budget_le (s : Bytes) (b : Btf) : Btf.budget s b ≤ (b.offsets.length +
     Nat.mul_le_mul_right _ (Nat.sub_le _ _)
   rw [Nat.add_mul]
   omega
+
+/-- **C08.get_file** — `get_file` + `read_to_end` never panics: any stream, any index (hostile
+    footer), any name, any buffer size.  For `n = 0` every `read` returns `[]`, so `read_to_end` stops
+    at once with `.ok []` — no panic either (the statement has no `0 < n` hypothesis). -/
+theorem get_file (P : Params) (utf8 : Bytes → Bool) (s : Bytes) (ix : Index) (name : Bytes) (n : Nat) :
+    NoPanic (Reader.getFile P utf8 s ix name n) := Reader.getFile_noPanic P utf8 s ix name n
 
 /-! ## 3. linear extraction and repair -/
 
@@ -363,18 +370,18 @@ example :
     (CompR.readFull (ι := Cur) Params.prod K0 id 3 ⟨cur0, some ⟨[3, 4], 0⟩, 0, .inData 0 0 []⟩ 4).2
       = .ok [1, 2, 3] := by decide
 
-/-! ### the finding: `read_to_end` through a hostile offsets list -/
+/-! ### `read_to_end` through a hostile offsets list -/
 
 /-- index entry for `a` whose offsets list points `k` times at the same content block -/
 def hix (k : Nat) : Index := [([97], ⟨0 :: List.replicate k 18, 3, 0⟩)]
 
-/-- **the fuel `|s| + 2` of `Btf.readAll` is NOT adequate** for a hostile index: 25 visits of a
-    3-byte block read with 1-byte buffers need 75 reads, the stream has 56 bytes.  (The loop itself
-    terminates — `curOff` only grows; with 5 visits the answer is the regular error `state`.) -/
-theorem readAll_fuel_inadequate :
-    Reader.getFile Params.prod (fun _ => true) hs (hix 25) [97] 1 = .error (.panic "readAll-fuel") ∧
-    Reader.getFile Params.prod (fun _ => true) hs (hix 5) [97] 1 = .error .state := by
-  constructor <;> decide
+/-- a hostile index: 25 visits of a 3-byte block read with 1-byte buffers need 75 reads of a 56-byte
+    stream (a fuel of `|s| + 2` would run out); the answer is the regular error `state` when the
+    offsets are exhausted -/
+example : Reader.getFile Params.prod (fun _ => true) hs (hix 25) [97] 1 = .error .state := by decide
+
+/-- with an empty buffer every read returns `[]` and `read_to_end` stops at once -/
+example : Reader.getFile Params.prod (fun _ => true) hs (hix 25) [97] 0 = .ok [] := by decide
 
 /-- `start 0 "a"` ; `content 0 [1,2,3]` (18–37) ; `start 1 "b"` (38–55) ; `eof 0 h` (56–96) -/
 def hsAmp : Bytes := hs ++ (Block.eof 0 (List.replicate 32 0)).encode
